@@ -24,7 +24,7 @@ LEVEL_TEXT = ("Seeded stall-fault injection: the live state is checked at every 
 LEVEL_NOTE = "Trusted: harness observers, dump comparison; sampling evidence only."
 PROBES = ["absence_step_with_working_task", "absence_at_step_0", "consecutive_absence", "fault.absence_beyond_end",
           "auto_progress_in_absence", "auto_frozen_in_absence", "individual_absence_on_holder", "twin_compared",
-          "twin_with_beyond_end", "twin_cut_off_by_max_time", "backward_runs"]
+          "twin_with_beyond_end", "twin_cut_off_by_max_time", "backward_runs", "random_progress_twin"]
 
 
 def budget(tier):
@@ -40,9 +40,22 @@ def gen(rng, tier):
         focus["res_abs"] = True
     if rng.random() < 0.4:
         focus["auto"] = True
+    random_twin = twin and rng.random() < 0.12
+    if random_twin:
+        focus.update(comps=True, auto=False, sd_zero=False)
     spec = C.forward_spec(rng, tier, focus)
-    if twin and rng.random() < 0.6:
+    if twin and rng.random() < 0.6 and not random_twin:
         spec["cfg"]["auto_flag"] = False
+    if random_twin:
+        # uncertain progress (standard deviations > 0) under a fixed random seed: a dead step must not consume random numbers,
+        # so the absence run with its absence steps deleted is still exactly the absence-free run
+        spec["random_twin"] = True
+        spec["cfg"]["rule"] = rng.randrange(2, 9)
+        for tm in spec["model"]["teams"]:
+            for w in tm["workers"]:
+                sd = {k: rng.choice([0.25, 0.5]) for k in w["skills"] if rng.random() < 0.7}
+                if sd:
+                    w["sd"] = sd
     if not twin and rng.random() < 0.3:
         spec["backward"] = {"due": rng.random() < 0.3, "reverse": rng.random() < 0.5}
     return spec
@@ -53,6 +66,16 @@ def extra_candidates(spec):
         c = dict(spec)
         c.pop("backward")
         yield c
+    if spec.get("random_twin"):
+        # fewer uncertain skills
+        import copy
+        for ti, tm in enumerate(spec["model"]["teams"]):
+            for wi, w in enumerate(tm["workers"]):
+                if w.get("sd"):
+                    c = dict(spec)
+                    c["model"] = copy.deepcopy(spec["model"])
+                    c["model"]["teams"][ti]["workers"][wi].pop("sd")
+                    yield c
 
 
 def twin_eligible(spec):
@@ -221,13 +244,18 @@ def run(spec):
     tr = C.run_forward(spec)
     tr.exact = spec.get("profile", {}).get("alphabet") == "dyadic"
     res = C.base_result(tr)
-    nt = check_live(res, tr)
-    # individual absence contributes nothing: the conservation oracle of C02, reported under C10
-    sub = C.campaign.Result()
-    c02.check_trace(sub, tr, clause_prefix="C10")
-    for v in sub.violations:
-        if v["clause"] == "contribution":
-            res.add(v["clause"], v["key"], v["msg"], v["step"])
+    if spec.get("random_twin"):
+        # the live oracles compute contributions from the skill means: only the twin comparison applies to uncertain progress
+        res.count("random_progress_twin")
+        nt = any(s.t in tr.absence and s.ph.get("recorded") is not None for s in tr.rec.steps)
+    else:
+        nt = check_live(res, tr)
+        # individual absence contributes nothing: the conservation oracle of C02, reported under C10
+        sub = C.campaign.Result()
+        c02.check_trace(sub, tr, clause_prefix="C10")
+        for v in sub.violations:
+            if v["clause"] == "contribution":
+                res.add(v["clause"], v["key"], v["msg"], v["step"])
     if twin_eligible(spec) and tr.out.ok and spec["cfg"].get("absence"):
         L = spec["cfg"]["absence"]
         M = spec["cfg"]["max_time"]
@@ -263,6 +291,8 @@ def run(spec):
                     cause = "rule_%s" % ["TSLACK", "EST", "SPT", "LPT", "FIFO", "LRPT", "SRPT", "LWRPT", "SWRPT"][rule]
                     if rule == 4 and fifo_explains(spec, cfgA, cfgB, L):
                         cause = "FIFO_counts_absence_steps_as_waiting"
+                    if spec.get("random_twin") and not cause.startswith("FIFO_counts"):
+                        cause += ".uncertain_progress_fixed_seed"
                     res.add("twin", "C10.twin_differs." + cause,
                             "simulate(absence=%s)+remove_absence_time_list() differs from simulate() in %s; first at %s: %r vs %r"
                             % (L, sorted(attrs), diff[0], diff[1], diff[2]), None)
